@@ -77,6 +77,7 @@ type FnRun struct {
 	loopPhis  map[string]*ssa.Phi
 	loopEntryState *State
 	callOrdinal int
+	calleeCount map[string]int
 }
 
 type retPoint struct {
@@ -320,6 +321,9 @@ func (r *FnRun) joinBlock(b *ssa.BasicBlock, edges []edge) *State {
 			}
 		}
 		r.vals[phi] = v
+		if phi.Comment != "" {
+			r.names[phi.Comment] = phi // the source variable now denotes the merged value
+		}
 	}
 	return r.e.mergeStates(sts)
 }
